@@ -36,6 +36,7 @@ ReactIdx(l) == IF WithReact /\ l.wf /\ l.h.cmd = SET
                THEN {0} \cup {k \in 1..Len(Calls) : Calls[k].a = "SetChild" /\ Calls[k].n = l.h.n /\ Calls[k].c = l.h.c}
                ELSE IF WithReact /\ l.wf /\ l.h.cmd = PRES
                THEN {0} \cup {k \in 1..Len(Calls) : Calls[k].a = "UpdateFw" /\ ~Calls[k].img}
+                        \cup {k \in 1..Len(Calls) : Calls[k].a = "SetChild" /\ Calls[k].n = l.h.n /\ Calls[k].c = l.h.c}
                ELSE {0}
 RxOf(k, l) == IF k = 0 THEN NoReact
               ELSE IF Calls[k].a = "SetChild"
@@ -151,8 +152,9 @@ AddressedToRequesterOrBroadcast ==
   [][IsLineStep => \A m \in SeqSet(NewCmds) :
         \/ m.n = StepLine[1].h.n \/ m.n = BROADCAST
         \/ m.cmd = INTERNAL /\ m.sub = I_ID_RESP]_mcvars
+\* (silence of the GATEWAY: a command the application issues from inside its callback in this step is the application's, r # 0)
 SilenceUnlessPrescribed ==
-  [][IsLineStep /\ Accepted(StepLine[1]) /\ IsKnown(nodes, StepLine[1].h.n, NOID) =>
+  [][IsLineStep /\ Accepted(StepLine[1]) /\ IsKnown(nodes, StepLine[1].h.n, NOID) /\ last'.r = 0 =>
        LET l == StepLine[1] IN
        (\/ l.h.cmd = PRES
         \/ l.h.cmd = INTERNAL /\ l.h.sub \notin {I_ID_REQ, I_CONFIG, I_TIME, I_GW_READY, WakeKind}
